@@ -211,19 +211,6 @@ func runC05(c *core.Ctx) {
 		synctest.Wait()
 		return true
 	}
-	driverCall := func(f func()) (ok bool) {
-		if fd == nil {
-			f()
-			return true
-		}
-		defer func() {
-			if r := recover(); r != nil {
-				ok = false
-			}
-		}()
-		fd.S.DriverCall(f)
-		return true
-	}
 	// advance lets simulated time pass. Under Engine F instrumented goroutines only run when they are
 	// resumed: FDriver.Advance pumps the scheduler while the clock runs.
 	advance := func(d time.Duration) {
@@ -235,12 +222,36 @@ func runC05(c *core.Ctx) {
 		settle()
 		fd.Advance(d)
 	}
+	// trigger: what MonitorHeaders does for a new header. Under Engine F the call runs on its own
+	// goroutine (a caller thread under the statement scheduler), and now and then a second trigger is
+	// issued in the same instant (the startup-delay goroutine and MonitorHeaders are different goroutines
+	// in the program, so their triggers can overlap).
 	trigger := func() {
-		if !driverCall(func() { nm.TriggerBlockSynchronize(ctx) }) {
-			c.Probe("trigger-deferred-lock-busy")
+		if fd == nil {
+			nm.TriggerBlockSynchronize(ctx)
+			return
+		}
+		n := 1
+		if t.Chance(1, 4) {
+			n = 2
+			c.Probe("two-triggers-same-instant")
+		}
+		for i := 0; i < n; i++ {
+			go nm.TriggerBlockSynchronize(ctx)
+			synctest.Wait() // up to its first scheduling point
 		}
 	}
-	driverCall(func() { nm.MarkStartupDelayComplete(ctx) })
+	if fd == nil {
+		nm.MarkStartupDelayComplete(ctx)
+	} else {
+		go nm.MarkStartupDelayComplete(ctx)
+		synctest.Wait()
+		if t.Chance(1, 3) {
+			go nm.TriggerBlockSynchronize(ctx) // a header arrives as the startup delay ends
+			synctest.Wait()
+			c.Probe("trigger-as-startup-delay-ends")
+		}
+	}
 	c.Event("startup delay complete (sync triggered)")
 	noneUntil := time.Time{}
 	serve := func(faulty bool) bool {
@@ -318,6 +329,18 @@ func runC05(c *core.Ctx) {
 		return "ok"
 	}
 
+	// waitStopped: NodeManager.Wait must return once everything was stopped; a synchronisation round
+	// that Stop no longer knows about would keep it (and this run) waiting for ever.
+	waitStopped := func() {
+		done := make(chan struct{})
+		go func() { nm.Wait(ctx); close(done) }()
+		select {
+		case <-done:
+		case <-time.After(30 * time.Minute):
+			c.Fail("c05.rounds-stop-at-shutdown", "wait-blocked", "NodeManager.Wait had not returned 30 simulated minutes after Stop: a synchronisation round is still running that Stop did not interrupt\n%s", core.BlockedGoroutines())
+			c.Stop()
+		}
+	}
 	idleStreak := 0
 	step := func(faulty bool) {
 		early = 0
@@ -423,7 +446,7 @@ func runC05(c *core.Ctx) {
 			}
 			time.Sleep(time.Minute)
 		}
-		nm.Wait(ctx)
+		waitStopped()
 		return
 	}
 	// fault free epilogue: honest sources; every best-chain block from the start height must get processed
@@ -508,7 +531,7 @@ func runC05(c *core.Ctx) {
 			time.Sleep(time.Minute)
 		}
 	}
-	nm.Wait(ctx)
+	waitStopped()
 }
 
 func init() {
